@@ -845,6 +845,9 @@ func (e *SpecEnv) evalCall(x *ECall) SV {
 					e.fail("ghostvar(NAME)")
 				}
 				return SV{t: fc.comp(e.cur, "G|v|"+id.Name, "Int"), typ: mathInt}
+			case "seqpart":
+				// seqpart(a, off, n): the byte string held by the window [off, off+n) of a byte array VALUE or slice (ext_crypto.go)
+				return e.seqpartBuiltin(x)
 			case "visited":
 				// visited(k): the ghost visited set of the map range loop whose invariant is being evaluated (ext_crypto.go)
 				return e.visitedBuiltin(x)
